@@ -63,6 +63,8 @@ pub fn dump_types<'tcx>(tcx: TyCtxt<'tcx>, krate: &str, out: &mut Vec<u8>) {
                     }
                 }
                 let vis = if tcx.visibility(did).is_public() { "pub" } else { "restricted" };
+                // nameable from outside the crate (`pub` all the way from the crate root, or re-exported)?
+                let reachable = did.as_local().map(|ld| tcx.effective_visibilities(()).is_reachable(ld)).unwrap_or(true);
                 push(obj(&[
                     ("k", "\"adt\"".into()),
                     ("crate", s(krate)),
@@ -71,6 +73,7 @@ pub fn dump_types<'tcx>(tcx: TyCtxt<'tcx>, krate: &str, out: &mut Vec<u8>) {
                     ("file", s(&l.file)),
                     ("line", l.line.to_string()),
                     ("vis", s(vis)),
+                    ("reachable", b(reachable)),
                     ("repr_c", b(repr.c())),
                     ("repr_packed", b(repr.packed())),
                     ("repr_transparent", b(repr.transparent())),
